@@ -79,7 +79,16 @@ def cases(draw):
     for w in ws:
         if w["l"] in "IJ" and w["v"] is not None and abs(w["v"]) > 500:
             w["t"], w["v"] = "2.5", 2.5      # arc radii beyond 500 are outside the documented domain (and cost one point per unit)
-    return {"part": "handler", "code": code, "words": ws,
+    prior = None
+    if draw(st.integers(0, 2)) == 0:
+        # the same handlers / parser objects have processed another command before (same code or another word-reading one)
+        pcode = draw(st.sampled_from([code, code, "G28", "G10", "G92", "G1"]))
+        pl = {"G0": "XYZEF", "G1": "XYZEF", "G2": "XYZEFIJ", "G3": "XYZEFIJ", "G92": "E", "G28": "XYZ", "G10": "SPL"}[pcode]
+        prior = {"code": pcode, "words": draw(st.lists(word(pl), min_size=1, max_size=4))}
+        for w in prior["words"]:
+            if w["l"] in "IJ" and w["v"] is not None and abs(w["v"]) > 500:
+                w["t"], w["v"] = "2.5", 2.5
+    return {"part": "handler", "code": code, "words": ws, "prior": prior,
             "rel": draw(st.integers(0, 3)) == 0, "inch": draw(st.integers(0, 3)) == 0,
             "lowcode": draw(st.integers(0, 5)) == 0}
 
@@ -138,6 +147,15 @@ def run_case(case, strict=False):  # pylint: disable=unused-argument,too-many-br
     code = case["code"]
     cl.add(code)
     flt = core.DirectFilter({}, [])
+    if case.get("prior"):
+        cl.add("prior_command")
+        for c in ("G28", "G1 X10 Y20 Z3 E4 F1500"):
+            flt.gcode(c)
+        try:
+            flt.handlers.handleGcode(case["prior"]["code"] + render(case["prior"]["words"]), case["prior"]["code"], None)
+        except Exception:  # pylint: disable=broad-except
+            pass
+        flt.gcode("G1 X5 Y5")
     pre = ["G28", "G1 X10 Y20 Z3 E4 F1500"]
     if case.get("inch"):
         pre.append("G20")
